@@ -450,4 +450,7 @@ impl Writer {
 
 /// the rely half of T8: the Writer behind the lock and the Readers in the pool satisfy their invariants
 impl SharedInv for Writer { closed spec fn shared_inv(&self, w: &World) -> bool { self.inv(w) } }
+/// the map a Handle denotes: what the key directory of its writer says about the files (C01 at the Handle level)
+spec fn hmodel(h: &Handle, w: &World) -> Map<Bytes, Bytes> { model(h.writer@.ctx.keydir@, w) }
+impl KvView for Handle { closed spec fn kv_map(&self, w: &World) -> Map<Bytes, Bytes> { hmodel(self, w) } }
 impl SharedInv for Reader { closed spec fn shared_inv(&self, w: &World) -> bool { world_wf(w) && index_ok(self.ctx.keydir@, w) } }
